@@ -220,6 +220,84 @@ reuse_cases(long long seed, int worker, int nworkers)
 	}
 }
 
+/*
+ * The same over the life of a SERVER context: one br_ssl_server_context (full-size buffers) is reset and
+ * serves clients with different buffer classes one after the other. What one client asked for must not leak
+ * into the next connection: no extension in a ServerHello whose ClientHello had none, the echoed value equals
+ * that connection's request, records after the ServerHello stay within that request (and use the full size
+ * again when the client has no limit).
+ */
+static void
+server_reuse_cases(long long seed, int worker, int nworkers)
+{
+	static const uint16_t suites[3] = { 0x002F, 0xC02F, 0xCCA8 };
+	static const size_t orders[4][4] = { { 512, 16384, 2048, 512 }, { 16384, 512, 16384, 1024 }, { 1024, 4096, 16384, 16384 }, { 4096, 512, 16384, 2048 } };
+	int si, oi, cached;
+	long idx = 0;
+	static br_ssl_session_cache_lru lru;
+	static unsigned char lru_store[3000];
+	for (si = 0; si < 3; si ++) for (oi = 0; oi < 4; oi ++) for (cached = 0; cached < 2; cached ++) {
+		tp_pair p;
+		tp_cfg cc, sc;
+		uint16_t sl[1];
+		int k;
+		char what[240];
+		if ((idx ++ % nworkers) != worker) continue;
+		tp_pair_init(&p, (uint64_t)seed, 162, TP_CHUNK_WHOLE);
+		if (cached) br_ssl_session_cache_lru_init(&lru, lru_store, sizeof lru_store);
+		for (k = 0; k < 4; k ++) {
+			const unsigned char *ev;
+			size_t vl, f = orders[oi][k], want_max;
+			int ch_code = 0, sh_code = 0;
+			tp_cfg_default(&cc, 0); tp_cfg_default(&sc, 1);
+			cc.layout = TP_LAYOUT_SPLIT2; cc.buflen = f + 325; cc.buflen_out = f + 85;
+			sc.layout = TP_LAYOUT_SPLIT2; sc.buflen = BR_SSL_BUFSIZE_INPUT; sc.buflen_out = BR_SSL_BUFSIZE_OUTPUT;
+			sc.reuse_ctx = k > 0;
+			if (cached) sc.cache = &lru.vtable;
+			sl[0] = suites[si]; cc.suites = sl; cc.nsuites = 1; cc.vmin = cc.vmax = suites[si] == 0x002F ? 0x0301 : 0x0303;
+			sc.keykind = tp_key_for_suite(tp_suite_find(sl[0]), 0);
+			memset(cc.seed, 0x51 + k, 32); memset(sc.seed, 0x61 + k, 32);
+			snprintf(tp_case, sizeof tp_case, "seed=%lld server-reuse suite=%04x clients=%zu,%zu,%zu,%zu cache=%d connection=%d",
+				seed, sl[0], orders[oi][0], orders[oi][1], orders[oi][2], orders[oi][3], cached, k + 1);
+			tp_ep_free(&p.c);
+			p.c2s.rd = p.c2s.wr = 0; p.s2c.rd = p.s2c.wr = 0;
+			if (k > 0) rm_free(&Z.pm.m.rm);
+			memset(&Z, 0, sizeof Z);
+			tm_pair_attach(&Z.pm, &p);
+			Z.pm.m.rec_hook = size_hook;
+			if (!tp_ep_start(&p.c, &cc) || !tp_ep_start(&p.s, &sc)) { TP_VIOL("setup:reset-failed", "reset failed"); break; }
+			p.c.tx_key = Z.pm.m.key[0]; p.c.rx_key = Z.pm.m.key[1]; p.s.tx_key = Z.pm.m.key[1]; p.s.rx_key = Z.pm.m.key[0];
+			vf_stat("server_reuse_connections", 1);
+			if (!tp_handshake(&p, 1000000)) {
+				snprintf(what, sizeof what, "handshake with a reused server context failed: client err=%d server err=%d", br_ssl_engine_last_error(p.c.eng), br_ssl_engine_last_error(p.s.eng));
+				TP_VIOL("reuse:server-handshake-failed", what);
+				break;
+			}
+			ev = find_ext(Z.pm.m.rm.last_ch, Z.pm.m.rm.last_ch_len, 0, 1, &vl); if (ev && vl == 1) ch_code = ev[0];
+			ev = find_ext(Z.pm.m.rm.last_sh, Z.pm.m.rm.last_sh_len, 1, 1, &vl); if (ev && vl == 1) sh_code = ev[0];
+			vf_distinct("server_reuse_step", "conn%d f%zu prev%zu ch%d sh%d", k + 1, f, k ? orders[oi][k - 1] : 0, ch_code, sh_code);
+			if (sh_code != 0 && sh_code != ch_code) {
+				snprintf(what, sizeof what, "ServerHello carries max_fragment_length code %d, this ClientHello carried %d", sh_code, ch_code);
+				TP_VIOL("mfl:server-echo-from-another-connection", what);
+			}
+			/* the server writes 40000 bytes: records must respect this connection's request, and be full-size without one */
+			tp_run_data(&p, 300, 40000, TP_W_WHOLE, 4000000);
+			want_max = ch_code ? ((size_t)256 << ch_code) : 16384;
+			if (Z.max_plain_after_sh > want_max) {
+				snprintf(what, sizeof what, "server sent a record with %zu plaintext bytes, this client asked for at most %zu", Z.max_plain_after_sh, want_max);
+				TP_VIOL("size:server-ignores-requested-length", what);
+			} else if (p.s.tx_done >= 40000 && 2 * Z.max_app_plain[1] < want_max) {     /* (TLS 1.0 CBC splits records 1 / n-1: compare by class) */
+				/* limited by an earlier client's request: not a protocol violation but the property's "fits ... negotiated" is about the limit in force for THIS connection; reported separately */
+				snprintf(what, sizeof what, "server never used more than %zu bytes per record although this connection allows %zu (limit left over from an earlier client?)", Z.max_app_plain[1], want_max);
+				TP_VIOL("size:server-limit-from-another-connection", what);
+			} else vf_stat("server_reuse_ok", 1);
+			tp_run_close(&p, 0, 100000);
+		}
+		rm_free(&Z.pm.m.rm);
+		tp_pair_free(&p);
+	}
+}
+
 int
 main(int argc, char **argv)
 {
@@ -499,6 +577,7 @@ main(int argc, char **argv)
 		tp_pair_free(&p);
 	}
 	reuse_cases(seed, worker, nworkers);
+	server_reuse_cases(seed, worker, nworkers);
 	vf_stat("monitored_calls", tp_calls);
 	vf_done();
 	return 0;
